@@ -22,3 +22,10 @@ func (db *Database) VerifChainsimLayers() (desc string) {
 	}
 	return desc
 }
+
+// VerifChainsimBase returns the root of the disk layer and the number of layers in the tree.
+func (db *Database) VerifChainsimBase() (root [32]byte, layers int) {
+	db.tree.lock.RLock()
+	defer db.tree.lock.RUnlock()
+	return db.tree.base.rootHash(), len(db.tree.layers)
+}
